@@ -26,16 +26,16 @@ def _load_checks():
 K1T = ('contract-based deductive verification: VCs generated from the AST of the real functions by symbolic execution '
        '(loop invariants, modular calls, frames), discharged by z3; ')
 TECH = [
-    ('C01', 'schema contracts on the real translators (operator table, in-order emission of the arithmetic fragment) + K2 CPython precedence table + K3 EmptyCell; bounded-exhaustive grammar enumeration against a spec evaluator as labelled stand-in',
-     'Bounded: grouping outside the arithmetic fragment, literal -> double. Trusted: L-SUBST, L-OPG, CPython ast.'),
+    ('C01', K1T + 'ExpressionTokenTranslator._group (precedence tree of the operand chain, operands and operators kept in order; three nested loops, dictionary of waiting levels, sequences in continuation form) with K2 facts tying the chain model to the real grammar data and _level; schema contracts on the real translators (operator table, mixed-level emission); K2 CPython precedence table; K3 EmptyCell; bounded-exhaustive grammar enumeration against a spec evaluator as labelled stand-in',
+     'Bounded: tree -> text for every tree (_translate_tree), the signs a leaf collects, literal -> double. Trusted: L-SUBST, L-OPG, CPython ast.'),
     ('C02', K1T + 'K2 exhaustive column-letter check; schema contracts on the reference translators; bounded monitor for the reference regexes',
      'Bounded: the three reference regexes (back-references), A:C areas. Trusted: R-VIEW list model, prelude.'),
     ('C03', K1T + 'structural single-producer and marker-discipline obligations; bounded differential monitor (entry-point vs whole-file, cycles)',
      'Bounded: faithfulness and cycle rejection over graph shapes. PARAM not mechanised.'),
     ('C04', K1T + 'chain set_cells -> flush -> set_arguments -> _cell_preprocessor -> get_cell; bounded history monitor',
      'Assumes A-ALIAS; set_cells proved for normalised identifiers (normalisation = handle_cell contract).'),
-    ('C05', K1T + 'K2 lexer progress / no left recursion on the real grammar data; run-time contract monitor for the consumed-prefix postcondition of CompositeBaseToken.get',
-     'CompositeBaseToken.get is outside the K1 subset (dynamic class dispatch): bounded.'),
+    ('C05', K1T + 'CompositeBaseToken.get / _get (ordered-choice parser: consumed prefix, leaves in order, shape of a token set; own contract as induction hypothesis, two lemmas proved by induction) and AstBuilder.parse; K2 lexer progress / no left recursion on the real grammar data; bounded monitor for the regex lexer',
+     'CompositeBaseToken.get / _get proved (dynamic class dispatch modelled by class values; functools.lru_cache is a K5 assumption); the regex lexer is bounded.'),
     ('C06', K1T + 'named partial operations + LEMMA uid is an identifier + K2 every schema emission is an expression; bounded totality monitor',
      'Everything not named is bounded. RecursionError / memory not modelled.'),
     ('C07', 'structural taint obligations on the AST of the real translators (repr quoting, single format call) + schema round-trip rows; bounded payload monitor',
@@ -48,8 +48,8 @@ TECH = [
      'A-REAL is exact for comparing given doubles; |int| <= 2**53.'),
     ('C11', K1T + 'element-level filter contracts + _flatten_list with recursion; K3 fold shapes; schema binding; bounded planted-content monitor',
      'Sum identities in exact arithmetic only (A-REAL).'),
-    ('C12', K1T + 'marking loops of SUMIFS / COUNTIFS / AVERAGEIFS / SUMIF with abstract total criteria (mechanical head extraction); schema binding; bounded criterion-semantics monitor',
-     'Criteria lambdas (interpolated text, re, dateutil) bounded; 1 and 2 pairs proved.'),
+    ('C12', K1T + 'marking loops of SUMIFS / COUNTIFS / AVERAGEIFS / SUMIF with abstract total criteria (mechanical head extraction); _accepts for typed criteria (21 instances: a number, a boolean, a date, or one of the six operators joined to such an operand); schema binding; bounded criterion-semantics monitor',
+     'Criteria written as text (operator prefix parsing, wildcards, numeric and date texts: str / re / dateutil) bounded; 1 and 2 pairs proved.'),
     ('C13', K1T + '_ifs / _iferror / _find_error_in_list; schema shapes (IfExp, lambda guard) + L-SUBST; bounded nest monitor',
      'Laziness is CPython IfExp / lambda semantics (trusted).'),
     ('C14', K1T + '_index / _match / _xmatch / _vlookup with loop invariants; K2 ADDRESS and COLUMN over all 16384 columns; schema defaults; bounded planted-table monitor',
@@ -58,10 +58,10 @@ TECH = [
      'K5 calendar contracts assumed + conformance-checked; holidays bounded.'),
     ('C16', 'bounded run-time contract monitor: exhaustive decimal grid against integer-arithmetic / decimal oracles; schema binding of the translators is the only proved part',
      'Decimal <-> binary conversion is outside the solvers and the encoding (A-REAL): bounded only.'),
-    ('C17', K1T + '_left / _right / _mid in z3 string theory + LEMMA REBUILD; schema binding; bounded monitor for SEARCH / VALUE',
+    ('C17', K1T + '_left / _right / _mid in z3 string theory + LEMMA REBUILD; _excel_value_to_string (text form of a text, a blank, a boolean, a whole number, a date); schema binding; bounded monitor for SEARCH / VALUE',
      'SEARCH and VALUE (re, str.replace chains, strptime) bounded.'),
-    ('C18', K1T + '_fill_cell; K3 constant emission through repr; bounded sparse-layout monitor for Excel.parse',
-     'Excel.parse not yet under a K1 contract: bounded.'),
+    ('C18', K1T + 'Excel.parse over an abstract worksheet stream (three nested loops: data, titles, sizes, safety report) and _fill_cell; K3 constant emission through repr; bounded sparse-layout monitor',
+     'openpyxl cell stream assumed (abstract stream contract).'),
     ('C19', K1T + 'gate clauses of Parser._translate (incl. exceptional exits); K3 shapes of is_safe and the report key; bounded monitor for the regexes and addresses',
      'The two re.findall patterns bounded.'),
     ('C20', 'structural contract: AST identity of every duplicated helper + same helper set (exhaustive)',
